@@ -443,6 +443,13 @@ TBuildCoinbase ==
          newK == (DOMAIN S2.w[w].outs) \ (DOMAIN st.w[w].outs) IN
      /\ Check(ForeignOnlyAdds(st, S2, w, e.key), "C07", "ForeignOnlyAdds", e, "build_coinbase")
      /\ Check(\A k \in newK : PathFresh(hv, w, k), "C15", "PathsUnique", e, "build_coinbase")
+     \* the path the coinbase was built on is a new one - or that of the still-unconfirmed coinbase candidate it
+     \* replaces (the one exception the property grants a mining node); never that of any other output
+     /\ (Ok(e) /\ Has(e, "retkey") /\ e.retkey # "") =>
+           Check(\/ PathFresh(hv, w, e.retkey)
+                 \/ /\ e.retkey \in DOMAIN st.w[w].outs
+                    /\ st.w[w].outs[e.retkey].cb /\ st.w[w].outs[e.retkey].st = "Unconfirmed",
+                 "C15", "PathsUnique", e, "build_coinbase:reuse")
      /\ Ok(e) => MatchState(LastOf(r.steps), e, "BuildCoinbase")
      /\ Step(hv)
 
